@@ -230,6 +230,12 @@ func sm9dec(i int, st Step) *Mismatch {
 		if err == nil {
 			re = e.Marshal()
 		}
+	case "g2/compressed":
+		e := new(vh.G2)
+		rest, err = e.UnmarshalCompressed(data)
+		if err == nil {
+			re = e.Marshal()
+		}
 	case "gt/raw":
 		e := new(vh.GT)
 		rest, err = e.Unmarshal(data)
